@@ -21,10 +21,12 @@ import (
 
 // C15 — no message from the network can crash or wedge a pool or an agent.
 
-func c15World() (*vh.PoolWorld, *jsonrpc2.Server, *vh.Cast) {
+func c15World() (*vh.PoolWorld, *jsonrpc2.Server, *vh.Cast) { return c15WorldOn(vh.Memory) }
+
+func c15WorldOn(driver string) (*vh.PoolWorld, *jsonrpc2.Server, *vh.Cast) {
 	vsched.ResetClock(0)
 	cast := vh.StdCast()
-	pw := vh.NewPoolWorld(vh.PoolConfig{Driver: vh.Memory, WithdrawMin: big10("100")})
+	pw := vh.NewPoolWorld(vh.PoolConfig{Driver: driver, WithdrawMin: big10("100")})
 	for _, e := range []string{"conn H1", "conn H2", "conn C1", "upd C1 H1", "link W1 C1", "tick 1s"} {
 		vh.PoolEvent(pw, cast, e)
 	}
@@ -176,8 +178,13 @@ func abbreviate(s string) string {
 }
 
 // correctly signed requests with semantically hostile parameters
-func c15Signed(shard, nshards int) vh.Unit {
+func c15Signed(shard, nshards int) vh.Unit { return c15SignedOn(vh.Memory, shard, nshards) }
+
+func c15SignedOn(driver string, shard, nshards int) vh.Unit {
 	name := fmt.Sprintf("signed-hostile/%d", shard)
+	if driver != vh.Memory {
+		name = fmt.Sprintf("signed-hostile/%s/%d", driver, shard)
+	}
 	return vh.Unit{Name: name, Run: func(u *vh.U) {
 		cast := vh.StdCast()
 		C, H, W := cast.ByName["C1"], cast.ByName["H2"], cast.ByName["W1"]
@@ -219,7 +226,8 @@ func c15Signed(shard, nshards int) vh.Unit {
 			calls = append(calls, vh.NewCall("vipnode_update", C, nn(), pool.UpdateRequest{PeerInfo: ps, BlockNumber: 1<<64 - 1}))
 			calls = append(calls, vh.NewCall("vipnode_update", C, nn(), pool.UpdateRequest{Peers: []string{"", long}, PeerInfo: ps}))
 		}
-		for _, node := range []string{"", "abc", C.NodeID, H.NodeID, strings.Repeat("f", 128), long} {
+		// (incl. ids that are a prefix or an extension of a registered one)
+		for _, node := range []string{"", "abc", C.NodeID, H.NodeID, strings.Repeat("f", 128), long, C.NodeID[:1], C.NodeID[:11], C.NodeID[:12], C.NodeID[:127], C.NodeID + "0", strings.ToUpper(C.NodeID)} {
 			calls = append(calls, vh.NewCall("pool_addNode", W, nn(), node))
 		}
 		calls = append(calls, vh.NewCall("pool_withdraw", W, nn(), nil))
@@ -244,7 +252,7 @@ func c15Signed(shard, nshards int) vh.Unit {
 			if i%nshards != shard {
 				continue
 			}
-			pw, srv, _ := c15World()
+			pw, srv, _ := c15WorldOn(driver)
 			_ = pw
 			// through the real JSON path: marshal the signed call as an RPC request
 			params := []interface{}{c.Sig, c.ID, c.Nonce}
@@ -651,7 +659,7 @@ func init() {
 				us = append(us, c15Shapes(s, 6))
 			}
 			for s := 0; s < 6; s++ {
-				us = append(us, c15Signed(s, 6))
+				us = append(us, c15Signed(s, 6), c15SignedOn(vh.Badger, s, 6))
 			}
 			us = append(us, c15Envelopes(), c15Wire())
 			n := 4
